@@ -23,6 +23,9 @@ pub enum Fill {
     F4,
     F5,
     F6,
+    /// halves of double-width characters in unusual places: placeholder in column 0 (after
+    /// DCH), lead in the last column without placeholder (drawn there, and pushed there by ICH)
+    F7,
 }
 
 #[derive(Clone, Copy, PartialEq, Eq, Debug)]
@@ -144,6 +147,26 @@ pub fn fill_script(f: Fill, c: u32, l: u32) -> Vec<Op> {
             s.push(Op::Sgr(vec![44]));
             s.push(Op::Ed(Some(2)));
             s.push(Op::Sgr(vec![]));
+        }
+        Fill::F7 => {
+            if c >= 2 {
+                s.push(cup(0, 0));
+                s.push(Op::Sgr(vec![35]));
+                s.push(Op::Draw("\u{30a2}b".into()));
+                s.push(Op::Sgr(vec![]));
+                s.push(cup(0, 0));
+                s.push(Op::Dch(Some(1)));
+            }
+            s.push(cup(l - 1, c - 1));
+            s.push(Op::Draw("\u{30a4}".into()));
+            if l >= 3 && c >= 4 {
+                s.push(cup(1, 0));
+                s.push(Op::Draw("ab".into()));
+                s.push(cup(1, c - 2));
+                s.push(Op::Draw("\u{30a6}".into()));
+                s.push(cup(1, 1));
+                s.push(Op::Ich(Some(1)));
+            }
         }
         Fill::F6 => {
             f1(&mut s);
